@@ -603,6 +603,13 @@ def emit_loops(tree):
   run = _body(_find_fdef(db, 'run'))
   ok = (len(run) == 1 and isinstance(run[0], ast.With) and len(run[0].items) == 1 and
         _src(run[0].items[0].context_expr) == 'jax.disable_jit()' and len(run[0].body) == 1 and isinstance(run[0].body[0], ast.For))
+  if not ok and len(run) == 1 and isinstance(run[0], ast.For) and len(run[0].body) == 2 and \
+      isinstance(run[0].body[0], ast.With) and len(run[0].body[0].items) == 1 and \
+      _src(run[0].body[0].items[0].context_expr) == 'jax.disable_jit()':
+    # the same loop with jit disabled per client and re-enabled BEFORE the yield (no config held across yields)
+    loop = ast.For(target=run[0].target, iter=run[0].iter, body=list(run[0].body[0].body) + [run[0].body[1]], orelse=[])
+    run = [ast.With(items=run[0].body[0].items, body=[loop])]
+    ok = True
   if ok:
     loop = run[0].body[0]
     ok = (_src(loop.target) == '(client_id, client_batches, client_input)' and _src(loop.iter) == 'clients' and len(loop.body) == 5 and
